@@ -72,6 +72,7 @@ DEFAULT_CFG = {
     "s_supported": None,
     "c_drop_first": 0,        # scripted fault: the first N client datagrams are lost
     "blackout_from": None,    # scripted fault: every datagram sent at/after this time (s after start) is lost
+    "blackout_until": None,   # ... and before this time (None = forever)
     "tickets": None,          # {"client": [], "server": {}} session-ticket store shared between worlds
     "c_max_streams": None,    # (bidi, uni) stream-count limits advertised by the client
     "s_max_streams": None,
@@ -411,7 +412,8 @@ class NetSim:
             d.recs = self.obs.observe(ep.name, data, addr, self.now)
             ep.sent_packets.extend(d.recs)
             recs_all.append((d, addr))
-            if self.cfg["blackout_from"] is not None and self.now - self.t0 >= self.cfg["blackout_from"]:
+            if self.cfg["blackout_from"] is not None and self.now - self.t0 >= self.cfg["blackout_from"] and (
+                    self.cfg["blackout_until"] is None or self.now - self.t0 < self.cfg["blackout_until"]):
                 d.kind = "scripted_loss"
                 self.log("send_lost", (ep.name, d.id, len(data)))
                 continue
